@@ -40,7 +40,6 @@ ASSUMPTIONS = [
     "the order in which Python iterates a set of tuples is unspecified: compared as sets",
 ]
 
-K_ISO_N1 = "iso_finder:single-vertex:ValueError"
 FUEL = 100000
 
 
@@ -227,9 +226,7 @@ def one_iso_finder(res, drv, rng, A, cfg):
     rejected = n_iso > math.factorial(n) or n_iso < 1
     if err is not None:
         res.count("errors", f"iso_finder:{err}")
-        if n <= 1 and err == "value":
-            viol(res, K_ISO_N1, "iso_finder raises on a graph with a single vertex", input=inp)
-        elif not rejected:
+        if not rejected:
             viol(res, f"iso_finder:raises:{err}", "iso_finder raised on a well-formed request", input=inp)
         if rep["_status"] != "err" or rep.get("_err") != err:
             res.exact_break("graph.isofinder:error-class", input=inp, impl=f"err {err}", model=rep["_raw"][:200])
@@ -275,12 +272,6 @@ def one_iso_finder(res, drv, rng, A, cfg):
         return
     res.nontrivial("iso_finder", inp["adj"], str(cfg))
     # ---- model
-    if n <= 1 and not rejected:
-        # region of known finding D43 (the model mirrors the ValueError): the implementation now returns and the oracle
-        # holds — noted, no alarm (DESIGN §6)
-        if K_ISO_N1 not in res.known_gone:
-            res.known_gone.append(K_ISO_N1)
-        return
     if rep["_status"] != "ok":
         res.exact_break("graph.isofinder", input=inp, impl=f"ok {len(got)} matrices", model=rep["_raw"][:200])
         return
@@ -578,6 +569,45 @@ def check_scripted(res, drv, orb, rng, quick, cache):
             res.branch([f"{kind}:ok"])
 
 
+def check_preprocessing(res, drv, orb, rng, count, cache):
+    """utils/preprocessing.py: the metric-guided LC walks `get_lc_graph_by_max_edge` / `get_lc_graph_by_max_neighbor_edge`
+    (direct oracle only: every candidate they return lies in the LC orbit of the input, never more than requested)"""
+    from graphiq.utils import preprocessing as pp
+
+    metrics = [("edges", lambda g: g.number_of_edges()), ("neg-edges", lambda g: -g.number_of_edges()),
+               ("max-degree", lambda g: max([d for _, d in g.degree()] or [0]))]
+    for _ in range(count):
+        n = rng.randrange(2, 7)
+        A = gu.structured_graph(rng, n)
+        fname = rng.choice(["get_lc_graph_by_max_edge", "get_lc_graph_by_max_neighbor_edge"])
+        mname, metric = rng.choice(metrics)
+        limit, trials = rng.randrange(1, 5), rng.randrange(1, 4)
+        inp = {"adj": gu.adj_args(A), "function": fname, "metric": mname, "n_graphs": limit, "n_trial": trials}
+        arg = gu.to_graph(A) if rng.random() < 0.5 else np.array(A, dtype=float)
+        try:
+            with gu.time_limit(300):
+                out = getattr(pp, fname)(arg, limit, metric, n_trial=trials)
+            outs = [gu.to_adj(g) for _, g in out]
+        except Exception as e:  # noqa: BLE001
+            viol(res, f"{fname}:raises:{err_class(e)}", "the metric-guided LC walk raised on a graph", input=inp)
+            continue
+        res.evaluations += 1
+        res.count("sizes", f"preprocessing:n={n}")
+        if len(outs) > limit:
+            viol(res, f"{fname}:more-than-requested", "never more candidate graphs than requested", input=inp)
+            continue
+        if not orbit_membership(res, drv, orb, A, outs, fname, inp, cache):
+            continue
+        if A.any():
+            res.nontrivial(fname, inp["adj"], mname, limit, trials)
+        rep = drv.ask(f"orb.walk {gu.adj_args(A)} kind={'nbedge' if 'neighbor' in fname else 'edge'} metric={mname} limit={limit} trials={trials}")
+        want = ";".join(gu.bits(g) for g in outs) if outs else "-"
+        if rep["_status"] != "ok" or rep.get("graphs") != want:
+            res.exact_break("orb.walk", input=inp, impl=want[:300], model=rep["_raw"][:300])
+        else:
+            res.traces_validated += 1
+
+
 # ---------------------------------------------------------------------------------------------------- run
 def relabel_cases(rng, quick):
     cases = []
@@ -637,6 +667,7 @@ def run(ctx):
         check_lc_orbit(res, drv, orb, rng, [gu.graph_of_mask(5, m) for m in range(1024)], 2, cache)
     check_lc_orbit(res, drv, orb, rng, [gu.structured_graph(rng, rng.randrange(5, 8)) for _ in range(40 if quick else 400)], 2, cache)
     check_scripted(res, drv, orb, rng, quick, cache)
+    check_preprocessing(res, drv, orb, rng, 60 if quick else 600, cache)
     res.exhaustive = True
     res.extra["driver_lines"] = drv.n_lines
     drv.close()
